@@ -4,6 +4,18 @@ _BASE_NOTE = ("Trusted: CrossHair's symbolic models of str/int/list and z3 (for 
               "bounds per condition as written to evidence (pre: lines). Nothing is claimed outside the bounds.")
 
 CLAIMS = {
+    "C01": {
+        "technique": "bounded symbolic execution (CrossHair/z3): real lexer vs reference lexer on symbolic strings; real parser on solver-chosen token sequences vs Earley recogniser of the June-2018 grammar",
+        "text": "Character level: every string up to 2 (quick) / 3 (thorough) symbolic characters, plus shaped prefixes reaching deep lexer states, "
+                "is decided by z3 path class by path class against a reference lexer. Token level: every token sequence up to the bound and every "
+                "single-token edit of a production-covering seed corpus is decided against an Earley recogniser. Rejections must be the library's syntax error with an in-range position.",
+        "note": _BASE_NOTE + " Composition lexer==reference and parser==grammar => parse==grammar is an argument, not a query. Number followed by digit or '.' is don't-care.",
+    },
+    "C02": {
+        "technique": "bounded symbolic execution (CrossHair/z3) of parse_block_string / string decoding / span arithmetic against spec transcriptions",
+        "text": "Block string values for every raw content up to 3 (quick) / 4 (thorough) symbolic characters decided against BlockStringValue(); token values and offsets are covered by the C01 lexer conditions (same comparison includes value/start/end).",
+        "note": _BASE_NOTE,
+    },
     "C07": {
         "technique": "bounded symbolic execution (CrossHair/z3) of coerce_value / value_from_ast / coerce_argument_values against a spec coercion oracle",
         "text": "Every path class of the real coercion code inside the stated bounds is decided by z3 against a reference "
